@@ -961,10 +961,17 @@ func behave(rep *vh.Report, env vh.Env, i int) {
 	top := sq()
 	var backends []string
 	n := 2 + r.Intn(2)
+	curatedCase := i == 0 // fixed first case: the two minimal default-vs-cluster shapes, deployment default group set
+	if curatedCase {
+		n = 2
+	}
 	for k := 0; k < n; k++ {
 		name := fmt.Sprintf("b%d", k)
 		backends = append(backends, name)
 		mode := (i + k*3 + r.Intn(2)) % len(behModes)
+		if curatedCase {
+			mode = 1 + k // cluster-states-unrelated-option, cluster-replaces-skip-auth
+		}
 		sv := behSvc{Name: name, Mode: behModes[mode]}
 		perm := r.Perm(len(skipPats))
 		P, Q := perm[0], perm[1]
@@ -973,7 +980,7 @@ func behave(rep *vh.Report, env vh.Env, i int) {
 		d := mp().add("from", sc(name+".sso.test")).add("to", sc("'{{backend_"+name+"}}'"))
 		o := mp().add("allowed_groups", sq(sc(gd)))
 		sv.Groups = append(sv.Groups, gd)
-		if r.Intn(10) < 8 {
+		if r.Intn(10) < 8 || curatedCase {
 			o.add("skip_auth_regex", sq(sc("'"+skipPats[P].re+"'")))
 			sv.Patterns = append(sv.Patterns, P)
 		}
@@ -1015,7 +1022,7 @@ func behave(rep *vh.Report, env vh.Env, i int) {
 		top.items = append(top.items, s)
 		bc.Svcs = append(bc.Svcs, sv)
 	}
-	if r.Intn(10) < 7 {
+	if r.Intn(10) < 7 || curatedCase {
 		bc.EnvGroups = []string{"grp-env-default"}
 	}
 	doc := emitDoc(top)
